@@ -1155,6 +1155,8 @@ func c5emit(c *Cfg, o c5out) {
 			stag = "ellipsis-inside-embedding"
 		case o.sole == "ok" && wrapped.nestedEmbedding():
 			stag = "nested-embedding"
+		case o.sole == "err" && o.res.class == "ok" && tag != "":
+			stag = tag // `s & d` itself is an attributed known acceptance
 		case o.sole == "err" && o.res.class == "ok" && o.cs.schema.recConj():
 			stag = "sole-embedding-of-conjunction-with-definition"
 		}
